@@ -149,8 +149,8 @@ func checkC08(c *Ctx) {
 				}
 				if f := cc.StaticCallee(); f != nil {
 					switch an.FuncPkgPath(f) + "." + f.Name() {
-					case "context.WithCancel", "context.Background", "context.TODO", "time.Now", "time.Since":
-						return false
+					case "context.WithCancel", "context.Background", "context.TODO", "time.Now", "time.Since", "context.AfterFunc", "context.WithCancelCause", "context.WithoutCancel":
+						return false // (AfterFunc only registers the callback; it runs on a goroutine of its own)
 					}
 					if an.FuncPkgPath(f) == "sync/atomic" {
 						return false
@@ -193,6 +193,61 @@ func checkC08(c *Ctx) {
 			R.OK("C08-sequence", key, c.pos(ret), "on every path to this return: one requestsWg.Wait and one netConn.Close")
 		} else {
 			R.Fail("C08-sequence", key, c.pos(ret), sprintf("on paths to this return requestsWg.Wait is called %s times and netConn.Close %s times", wcount[ret], ccount[ret]))
+		}
+	}
+	// between the Wait and the Close nothing does I/O on the connection (a "drain what the client still sends" read, a
+	// final write): such a call has no deadline once the handlers are gone and can block for as long as the client
+	// keeps its side open - the socket is then never closed and OnClose never called
+	{
+		touches := func(ci ssa.CallInstruction) string {
+			if isClose(ci) || isWait(ci) {
+				return ""
+			}
+			if s := c.blockingSocketIO(ci, map[*ssa.Function]bool{}); s != "" {
+				return s
+			}
+			cc := ci.Common()
+			if f := cc.StaticCallee(); f != nil && an.InModule(f) {
+				return ""
+			}
+			vals := append([]ssa.Value{}, cc.Args...)
+			if cc.IsInvoke() {
+				vals = append(vals, cc.Value)
+			}
+			for _, a := range vals {
+				for _, fld := range []string{"reader", "writer", "netConn"} {
+					if _, ok := fieldLoad(a, G, "conn", fld); ok {
+						name := "a call"
+						if f := cc.StaticCallee(); f != nil {
+							name = f.String()
+						} else if cc.IsInvoke() {
+							name = cc.Method.Name()
+						}
+						if fld == "netConn" && cc.IsInvoke() && (socketMethodOK[cc.Method.Name()] || cc.Method.Name() == "Close") {
+							continue
+						}
+						return name + " on conn." + fld
+					}
+				}
+			}
+			return ""
+		}
+		bad := ""
+		var at ssa.Instruction
+		for f := range syncReach(m.closeFn) {
+			if !an.InModule(f) {
+				continue
+			}
+			for _, ci := range an.Calls(f) {
+				if t := touches(ci); t != "" && bad == "" {
+					bad, at = t, ci
+				}
+			}
+		}
+		if bad == "" {
+			R.OK("C08-sequence", "(*conn).close: nothing between Wait and Close does I/O on the connection", c.P.Pos(m.closeFn.Pos()), "close only waits for the handlers and closes the socket")
+		} else {
+			R.Fail("C08-sequence", "(*conn).close: nothing between Wait and Close does I/O on the connection", c.pos(at), "close() performs "+bad+": with the handlers gone nothing bounds that I/O, so a client that keeps its side open keeps the server from ever closing the socket (and from calling OnClose)")
 		}
 	}
 	for _, cl := range closeCalls {
@@ -672,6 +727,53 @@ func generatorCounter(v ssa.Value, m *serverModel) (bool, string) {
 	return true, "ID handed out by a sequence object private to Run (zero-initialised local, used only through " + fname(g) + ", which increments and returns its counter), once per accept-loop iteration before newConn"
 }
 
+// atomicFieldCounter: the ID is the result of `s.f.Add(1)` on a typed atomic
+// integer field of the Server (atomic.Int64 / Int32 / Uint64 ...) that nothing
+// else in gldap adds to, stores, swaps or compare-and-swaps: every Add(1)
+// returns a value no other Add(1) returns.
+func (c *Ctx) atomicFieldCounter(idArg ssa.Value, m *serverModel) (bool, string) {
+	v := an.Strip(idArg)
+	if cv, ok := v.(*ssa.Convert); ok {
+		v = an.Strip(cv.X)
+	}
+	call, ok := v.(*ssa.Call)
+	if !ok {
+		return false, ""
+	}
+	g := call.Common().StaticCallee()
+	if g == nil || an.FuncPkgPath(g) != "sync/atomic" || g.Name() != "Add" || g.Signature.Recv() == nil || len(call.Common().Args) != 2 {
+		return false, ""
+	}
+	if k, isK := an.IntConst(call.Common().Args[1]); !isK || k != 1 {
+		return false, "the atomic counter is not advanced by exactly 1"
+	}
+	fa, ok := call.Common().Args[0].(*ssa.FieldAddr)
+	if !ok || !an.TypeIs(fa.X.Type(), G, "Server") {
+		return false, "the atomic counter is not a field of the Server"
+	}
+	name := an.FieldAddrName(fa)
+	for _, f := range c.shippedFuncs(G) {
+		for _, ci := range an.Calls(f) {
+			h := ci.Common().StaticCallee()
+			if h == nil || an.FuncPkgPath(h) != "sync/atomic" || h.Signature.Recv() == nil || len(ci.Common().Args) == 0 {
+				continue
+			}
+			ofa, isFA := ci.Common().Args[0].(*ssa.FieldAddr)
+			if !isFA || !an.TypeIs(ofa.X.Type(), G, "Server") || an.FieldAddrName(ofa) != name {
+				continue
+			}
+			if ci == ssa.CallInstruction(call) || h.Name() == "Load" {
+				continue
+			}
+			return false, "Server." + name + " is also changed by " + h.Name() + " in " + fname(f)
+		}
+	}
+	if loopHeadOf(call) == nil || loopHeadOf(call) != loopHeadOf(m.accept) {
+		return false, "the atomic counter is not advanced in the accept loop"
+	}
+	return true, "Server." + name + ".Add(1), the only operation on that atomic field that changes it: no two calls return the same value"
+}
+
 // serverFieldCounter: the ID is read from an int field of the Server right
 // after the field's only store in gldap, `s.f++`, both in Run under one
 // uninterrupted hold of s.mu (write mode): every read follows an increment of
@@ -748,6 +850,8 @@ func checkC09(c *Ctx) {
 			ok, why = true, why2
 		} else if ok3, why3 := generatorCounter(an.Strip(idArg), m); ok3 {
 			ok, why = true, why3
+		} else if ok5, why5 := c.atomicFieldCounter(idArg, m); ok5 {
+			ok, why = true, why5
 		} else if ok4, why4 := c.serverFieldCounter(idArg, m); ok4 {
 			ok, why = true, why4
 		} else if why4 != "" {
@@ -773,6 +877,11 @@ func checkC09(c *Ctx) {
 		n++
 		R.Check(fs.Fn == newConnFn && an.Strip(fs.Store.Val) == ssa.Value(newConnFn.Params[1]), "C09-immutable", fname(fs.Fn)+": store conn.connID", c.pos(fs.Store),
 			"stored once by newConn from its connID parameter", "conn.connID is written outside newConn or not from its parameter (value "+an.Path(fs.Store.Val)+")")
+		if fs.Fn == newConnFn {
+			// ... into a conn that nobody else can hold: a fresh allocation, not an object taken from a pool or handed in
+			_, fresh := an.Strip(fs.Base).(*ssa.Alloc)
+			R.Check(fresh, "C09-immutable", "newConn: the conn is a fresh allocation", c.pos(fs.Store), "&conn{...} allocated by this call", "newConn stores the ID into "+an.Path(fs.Base)+", which is not a conn allocated by this call (a recycled object?): requests that still refer to it, e.g. kept by a handler, start reporting the new connection's ID")
+		}
 	}
 	if n == 0 {
 		R.Fail("C09-immutable", "newConn: store conn.connID", c.P.Pos(newConnFn.Pos()), "newConn never stores the connection ID")
